@@ -12,12 +12,15 @@ assigns to W8; the static tie for every other panic-capable construct of the sou
                             fact that the repair changes nothing else;
 * `loop_compute_bounded`    `RedirectionLoop::compute` evaluates the router at most `max_hops` times and
                             returns at most `max_hops + 1` hops, for every router (termination);
+* `request_time_total`      the repaired rendering of the `request_time` variable never panics (W8-F2 is closed), with
+                            the exact characterisation of when the code before the repair panicked;
 * `null_patterns`           no `extern "C"` entry point dereferences a null parameter, under any null pattern
                             of its nullable parameters — `decide` over the finite table regenerated from the
                             source (`Rio.Consts.ffiNullTable`); removing a null check breaks this proof.
 -/
 import RioModel.Model.PanicSlice
 import RioModel.Model.FfiNull
+import RioModel.Model.PanicTime
 import RioModel.Proofs.Loop
 set_option linter.unusedSimpArgs false
 
@@ -96,6 +99,40 @@ example : transform [195, 169] (utf8Boundary [195, 169]) 1 none = Outcome.ok [] 
 example : transform [97, 195, 169, 98] (utf8Boundary [97, 195, 169, 98]) 1 (some 3) = Outcome.ok [195, 169] := by
   decide
 example : transform [97, 98, 99] (utf8Boundary [97, 98, 99]) 1 (some 1000000) = Outcome.ok [98, 99] := by decide
+
+/-! ### The `request_time` variable (finding W8-F2, repaired by 2547641) -/
+
+open Rio.Time in
+/-- **The repaired rendering never panics**, whatever the instant. -/
+theorem request_time_total (c : Civil) : ∃ s, requestTime c = Rio.Time.Outcome.ok s := by
+  unfold requestTime
+  split
+  · rename_i h
+    unfold rfc2822
+    have : ¬ (c.year < 0 ∨ c.year > 9999) := by omega
+    simp only [this, if_false]
+    exact ⟨_, rfl⟩
+  · exact ⟨_, rfl⟩
+
+open Rio.Time in
+/-- Exactly when the code before the repair panicked: a year outside 0..=9999 (W8-F2). -/
+theorem request_time_old_panics_iff (c : Civil) :
+    (∀ s, requestTimeOld c ≠ Rio.Time.Outcome.ok s) ↔ (c.year < 0 ∨ c.year > 9999) := by
+  unfold requestTimeOld rfc2822
+  constructor
+  · intro h
+    by_cases hy : c.year < 0 ∨ c.year > 9999
+    · exact hy
+    · simp only [hy, if_false] at h
+      exact absurd rfl (h _)
+  · intro hy s
+    simp [hy]
+
+open Rio.Time in
+/-- The repair changes nothing inside the range. -/
+theorem request_time_agrees_with_old (c : Civil) (h : 0 ≤ c.year ∧ c.year ≤ 9999) :
+    requestTime c = requestTimeOld c := by
+  simp [requestTime, requestTimeOld, h]
 
 /-! ### Redirect-loop analysis terminates -/
 
